@@ -424,9 +424,9 @@ struct MaterialData {
     #[br(count = file_header.string_table_size)]
     strings: Vec<u8>,
 
+    // the table flags are the first four bytes of the additional data, which may be absent
     #[br(count = file_header.additional_data_size)]
-    #[br(pad_size_to = 4)]
-    #[br(map = |x: Vec<u8>| u32::from_le_bytes(x[0..4].try_into().unwrap()))]
+    #[br(map = |x: Vec<u8>| x.get(0..4).map_or(0, |flags| u32::from_le_bytes(flags.try_into().unwrap())))]
     table_flags: u32,
 
     #[br(calc = (table_flags & 0x4) != 0)]
